@@ -8,6 +8,7 @@ import (
 	"math"
 	"math/big"
 	"strconv"
+	"unicode/utf8"
 
 	"github.com/ohler55/slip"
 	"golang.org/x/text/cases"
@@ -147,7 +148,7 @@ func (c *control) readDir() {
 			}
 		case '#':
 			params = append(params, len(c.args)-c.argPos)
-		case 'v':
+		case 'v', 'V':
 			var p any
 			if 0 <= c.argPos {
 				p = c.args[c.argPos]
@@ -155,8 +156,15 @@ func (c *control) readDir() {
 			}
 			params = append(params, p)
 		case '\'':
-			p := c.readParam()
-			params = append(params, slip.ReadCharacter(p))
+			// The character after the quote is the parameter whatever it
+			// is, even a directive character or a comma.
+			start := c.pos
+			if c.pos < c.end {
+				_, n := utf8.DecodeRune(c.str[c.pos:])
+				c.pos += n
+			}
+			_ = c.readParam() // the rest of a character name
+			params = append(params, slip.ReadCharacter(c.str[start:c.pos]))
 		case '-', '0', '1', '2', '3', '4', '5', '6', '7', '8', '9':
 			c.pos--
 			p := c.readParam()
